@@ -1,12 +1,13 @@
 (* C02: the BIOM 1.0 JSON writer emits well-formed JSON that reads back exactly.
    Model: Model/Json.v (Table.to_json, Table.from_json and the constructor they use, what
-   json.dumps writes for a string, what the JSON scanner reads).  Proofs: Proofs/JsonProofs.v,
-   Proofs/JsonTextProofs.v.  Matrix values are integer codes of doubles (any injective coding
+   json.dumps writes for a string, what the JSON scanner reads), Model/JsonText.v (the characters
+   to_json concatenates, a reader of JSON text).  Proofs: Proofs/JsonProofs.v,
+   Proofs/JsonTextProofs.v, Proofs/JsonDocProofs.v.  Matrix values are integer codes of doubles (any injective coding
    with 0.0 -> 0); a string is the list of its code points. *)
 From Coq Require Import String.
 From Coq Require Import List Arith ZArith Bool Permutation.
-From BiomV Require Import Base.Tree Base.ListUtil Base.Matrix Model.Table Model.Json.
-From BiomV Require Import Proofs.JsonProofs Proofs.JsonTextProofs.
+From BiomV Require Import Base.Tree Base.ListUtil Base.Matrix Model.Table Model.Json Model.JsonText.
+From BiomV Require Import Proofs.JsonProofs Proofs.JsonTextProofs Proofs.JsonDocProofs.
 Import ListNotations.
 Open Scope Z_scope.
 
@@ -114,3 +115,48 @@ Theorem isoformat_raw_safe : forall s rest,
   Forall (fun c => In c DATE_ALPHABET) s -> lex_string (raw_literal s ++ rest) = Some (s, rest).
 Proof. exact JsonTextProofs.isoformat_raw_safe. Qed.
 Print Assumptions isoformat_raw_safe.
+
+(* --- the whole document, character level --- *)
+
+(* The characters Table.to_json concatenates (Model/JsonText.v to_json_text: braces, the twelve
+   '"key": value' fields, the comma logic of the data loop with its have_written flag, the
+   records of both axes, '%d' numbers) read back, with the JSON reader of Model/JsonText.v, as
+   exactly to_json_tree; so the text is well-formed JSON whatever the table holds.
+   Oracles, as hypotheses (never axioms):
+     fmt_contract: for every matrix value v of the table, fmt v (= repr(float)) is non-empty,
+       made of the characters 0-9 + - . e E, is not an integer literal, and scan_float (= float())
+       of it is v;
+     md_contract: for every metadata value j of the table, what dumps writes for j reads back
+       as j (given md_fuel j of fuel), whatever delimiter follows.
+   text_ok: table id, generated_by, type and IDs are strings of Unicode scalar values, the date
+   has no quote, backslash or control character, metadata lists have the length of their axis.
+   f is the fuel of the reader; doc_fuel is linear in the size of the table. *)
+Theorem json_text_roundtrip : forall fmt scan_float dumps_md md_fuel ovals omds,
+  fmt_contract fmt scan_float ovals -> md_contract scan_float dumps_md md_fuel omds ->
+  forall c tid f rest, text_ok ovals omds c tid -> (doc_fuel md_fuel c <= f)%nat ->
+  parse_value scan_float f (to_json_text fmt dumps_md c tid ++ rest) = Some (to_json_tree c tid, rest).
+Proof. exact JsonDocProofs.json_text_roundtrip. Qed.
+Print Assumptions json_text_roundtrip.
+
+Theorem json_text_parses : forall fmt scan_float dumps_md md_fuel ovals omds,
+  fmt_contract fmt scan_float ovals -> md_contract scan_float dumps_md md_fuel omds ->
+  forall c tid f, text_ok ovals omds c tid -> (doc_fuel md_fuel c <= f)%nat ->
+  parse_json scan_float f (to_json_text fmt dumps_md c tid) = Some (to_json_tree c tid).
+Proof. exact JsonDocProofs.json_text_parses. Qed.
+Print Assumptions json_text_parses.
+
+(* all hypotheses at once on a 1 x 2 table whose non-zero value prints as "1.5" *)
+Example json_text_roundtrip_witness :
+  fmt_contract ex_fmt ex_scan [96] /\ md_contract ex_scan ex_dumps ex_fuel [JNull]
+  /\ text_ok [96] [JNull] ex_table (K "None").
+Proof. exact JsonDocProofs.ex_contracts. Qed.
+
+(* the comma logic of the observation loop, on its own: whatever rows are empty, the body of
+   "data" is the entries separated by single commas *)
+Theorem data_rows_commas : forall fmt m,
+  data_rows fmt 0 m false = match map (triple_text fmt) (triples m) with
+                            | [] => []
+                            | x :: t => x ++ cjoin t
+                            end.
+Proof. intros fmt m. exact (proj2 (JsonDocProofs.data_rows_spec fmt m 0%nat)). Qed.
+Print Assumptions data_rows_commas.
